@@ -108,6 +108,10 @@ def gen_cases(ctx):
         for _ in range(3 if T else 1):
             U, ops, st = fl.gen_world_case(r, r.range(33, 44), 60, deep=True)
             add("deep", backend, U, ops, st)
+    # deterministic depth ladder (every depth 1..limit, the compaction step, twice), both backends
+    for backend in ("mem", "file"):
+        U, ops, st = fl.gen_ladder_case(r, 2 * 16 + 3)
+        add("ladder", backend, U, ops, st)
     # general histories: 1-25 segments, up to 40 commands, heads / mid-segment / write_facts / merges
     for _ in range(400 if T else 36):
         nseg = r.choice([1, 2, 3, 5, 8, 12, 18, 25])
@@ -151,7 +155,7 @@ def run(ctx):
                 "(names x all prefixes of all keys + absent ones) of the touched object is compared; non-trivial = at least two written "
                 "segments and at least one delete; distinct by the full op list",
         "distribution": {
-            "by_kind": {k: sum(1 for c in cases if c["kind"] == k) for k in ("deep", "history", "long", "malformed")},
+            "by_kind": {k: sum(1 for c in cases if c["kind"] == k) for k in ("deep", "ladder", "history", "long", "malformed")},
             "by_backend": {k: sum(1 for c in cases if c["backend"] == k) for k in ("mem", "file")},
             "segments_per_case_max": max(sum(1 for o in c["ops"] if o[0] in ("W", "C")) for c in cases),
             "commands_per_case_max": max(sum(1 for o in c["ops"] if o[0] == "A") for c in cases),
